@@ -45,15 +45,17 @@ func (p P) msg() *durationpb.Duration { return &durationpb.Duration{Seconds: p.A
 type Op struct {
 	K      string `json:"k"`
 	ID     int    `json:"id"`
-	Gen    bool   `json:"gen,omitempty"`    // empty id + WithGenIDIfAbsent (+ WithIDCallback)
-	EA     bool   `json:"ea,omitempty"`     // WithExpectAbsent
-	CIA    bool   `json:"cia,omitempty"`    // WithCreateIfAbsent
-	AM     bool   `json:"am,omitempty"`     // WithAllowMissing
-	Expect *P     `json:"expect,omitempty"` // WithExpectedValue (the whole message)
-	Check  string `json:"check,omitempty"`  // "n" | "eq<k>" | "ne<k>" on field a: WithExpectedCheck failing with OutOfRange
-	F      string `json:"f,omitempty"`      // "s<a>.<b>" write a.b | "a<k>" / "b<k>" interceptBefore: field += k
-	Mask   string `json:"mask,omitempty"`   // "" none | "a" | "b" | "ab": WithUpdatePaths(seconds / nanos)
-	WT     *int64 `json:"wt,omitempty"`     // WithWriteTime
+	Gen    bool   `json:"gen,omitempty"`     // empty id + WithGenIDIfAbsent (+ WithIDCallback)
+	EA     bool   `json:"ea,omitempty"`      // WithExpectAbsent
+	CIA    bool   `json:"cia,omitempty"`     // WithCreateIfAbsent
+	AM     bool   `json:"am,omitempty"`      // WithAllowMissing
+	Expect *P     `json:"expect,omitempty"`  // WithExpectedValue (the whole message)
+	Check  string `json:"check,omitempty"`   // "n" | "eq<k>" | "ne<k>" on field a: WithExpectedCheck failing with OutOfRange
+	F      string `json:"f,omitempty"`       // "s<a>.<b>" write a.b | "a<k>" / "b<k>" interceptBefore: field += k
+	Mask   string `json:"mask,omitempty"`    // "" none | "a" | "b" | "ab": WithUpdatePaths(seconds / nanos)
+	WT     *int64 `json:"wt,omitempty"`      // WithWriteTime
+	ViaAdd bool   `json:"via_add,omitempty"` // (with EA and CIA) call Collection.Add, which supplies those two options itself
+	After  bool   `json:"after,omitempty"`   // InterceptAfter: field b of the result = old b + 1 (a revision counter kept by the writer)
 	// Rivals are complete calls made from inside this call's own callback, where no lock is held: the i-th
 	// invocation of the callback runs Rivals[i] first (an Update/Set invokes it once, a Delete once per attempt).
 	Rivals  []Op   `json:"rivals,omitempty"`
@@ -108,10 +110,14 @@ func (o Op) check() string {
 }
 
 func (o Op) mask() string {
-	if o.Mask == "" {
-		return "-"
+	m := o.Mask
+	if m == "" {
+		m = "-"
 	}
-	return o.Mask
+	if o.After {
+		m += "+"
+	}
+	return m
 }
 
 func (o Op) encode() string {
@@ -327,10 +333,11 @@ func (w *world) writeOpts(o Op, genID *int) (proto.Message, []resource.WriteOpti
 	if o.Gen {
 		opts = append(opts, resource.WithGenIDIfAbsent(), resource.WithIDCallback(func(id string) { *genID = idOf(id) }))
 	}
-	if o.EA {
+	viaAdd := o.K == "u" && o.ViaAdd && o.EA && o.CIA
+	if o.EA && !viaAdd {
 		opts = append(opts, resource.WithExpectAbsent())
 	}
-	if o.CIA {
+	if o.CIA && !viaAdd {
 		opts = append(opts, resource.WithCreateIfAbsent())
 	}
 	if o.AM {
@@ -410,6 +417,12 @@ func (w *world) writeOpts(o Op, genID *int) (proto.Message, []resource.WriteOpti
 			}))
 		}
 	}
+	if o.After {
+		opts = append(opts, resource.InterceptAfter(func(old, new proto.Message) {
+			v, _ := msgVal(old)
+			new.(*durationpb.Duration).Nanos = int32(v.B + 1)
+		}))
+	}
 	return msg, opts
 }
 
@@ -433,7 +446,12 @@ func (w *world) exec(o Op, genID *int) string {
 		if o.Gen {
 			id = ""
 		}
-		res := canon(w.coll.Update(id, msg, opts...))
+		var res string
+		if o.ViaAdd && o.EA && o.CIA {
+			res = canon(w.coll.Add(id, msg, opts...))
+		} else {
+			res = canon(w.coll.Update(id, msg, opts...))
+		}
 		if o.Gen && strings.HasPrefix(res, "ok:") {
 			res += "#" + strconv.Itoa(*genID)
 		}
@@ -525,9 +543,12 @@ func (o Op) written(old P) P {
 	}
 	switch o.Mask {
 	case "a":
-		return P{v.A, old.B}
+		v = P{v.A, old.B}
 	case "b":
-		return P{old.A, v.B}
+		v = P{old.A, v.B}
+	}
+	if o.After {
+		v.B = old.B + 1
 	}
 	return v
 }
